@@ -248,9 +248,9 @@ func RefCmp(e *Expr, a, b *M) int {
 		return leafCmp(e.Dom.Leaf, a.Leaf, b.Leaf)
 	case OpTime:
 		switch {
-		case a.Ns < b.Ns:
+		case a.Sec < b.Sec, a.Sec == b.Sec && a.Ns < b.Ns:
 			return -1
-		case a.Ns > b.Ns:
+		case a.Sec > b.Sec, a.Sec == b.Sec && a.Ns > b.Ns:
 			return 1
 		}
 		return 0
